@@ -62,19 +62,22 @@ Print Assumptions C10_lockfree_functions_write_nothing.
 Theorem C10_census_parts :
   vars_only_initialised ConcStateGen.state_writes = true /\
   lf_reads_no_locked_field ConcStateGen.lf_read_fields = true /\
-  holders_hold_only_the_cache ConcStateGen.shared_fields = true.
-Proof. exact (conj census_vars_only_initialised (conj census_lf_reads_no_locked_field census_holders)). Qed.
+  holders_hold_only_the_cache ConcStateGen.shared_fields = true /\
+  lk_writes_to_fresh ConcStateGen.lk_field_writes = true.
+Proof. exact (conj census_vars_only_initialised (conj census_lf_reads_no_locked_field (conj census_holders census_lk_writes_to_fresh))). Qed.
 Print Assumptions C10_census_parts.
 
 (* the checks discriminate: a memo map in the Reflector filled by NewRoot (directly or through
    a local alias), a package-level cache filled inside Schema, a new mutable field on a
-   long-lived object, a per-call type becoming reachable from one — each is rejected *)
+   long-lived object, a per-call type becoming reachable from one, a locked function that
+   modifies a schema object it found in the cache — each is rejected *)
 Example C10_census_rejects_regressions :
   lf_writes_nothing ConcStateGen.lockfree_fns (memo_write :: ConcStateGen.state_writes) = false /\
   lf_writes_nothing ConcStateGen.lockfree_fns (memo_alias_write :: ConcStateGen.state_writes) = false /\
   vars_only_initialised (pkg_cache_write :: ConcStateGen.state_writes) = false /\
   holders_hold_only_the_cache (("j5reflect.Reflector.rootProps"%string, "map[string]*j5reflect.propSet"%string, true) :: ConcStateGen.shared_fields) = false /\
-  forallb shared_type_ok ("j5reflect.propSet"%string :: ConcStateGen.shared_types) = false.
+  forallb shared_type_ok ("j5reflect.propSet"%string :: ConcStateGen.shared_types) = false /\
+  lk_writes_to_fresh (republish_write :: ConcStateGen.lk_field_writes) = false.
 Proof. exact census_rejects_regressions. Qed.
 
 (* ---- the guarded discipline: for ALL type universes (cyclic or not, with or without
